@@ -4283,12 +4283,12 @@ fn parse_qualifiers<'a>(
                 ))
             }
         };
-        let (newarg, remainder, _) = get_arg(querystring)?;
+        let (newarg, remainder2, _) = get_arg(remainder)?;
         if newarg == "RECURSIVE" {
-            let (newarg, remainder, _) = get_arg(querystring)?;
+            let (newarg, remainder, _) = get_arg(remainder2)?;
             Ok((newarg, remainder, qualifier, AnnotationDepth::Max))
         } else {
-            Ok((newarg, remainder, qualifier, AnnotationDepth::One))
+            Ok((newarg, remainder2, qualifier, AnnotationDepth::One))
         }
     } else {
         Ok((
@@ -4326,7 +4326,7 @@ fn parse_text_qualifiers<'a>(
                 ))
             }
         };
-        let (newarg, remainder, _) = get_arg(querystring)?;
+        let (newarg, remainder, _) = get_arg(remainder)?;
         Ok((newarg, remainder, qualifier, regex))
     } else {
         Ok((arg, querystring, TextMode::Exact, false))
